@@ -149,6 +149,10 @@ func comparePrereleaseIdentifiers(a, b string) int {
 
 // tryParseInt attempts to parse a string as an integer
 func tryParseInt(s string) (int, bool) {
+	// Only identifiers made of digits are numeric ("-5" or "+5" are alphanumeric in SemVer)
+	if strings.Trim(s, "0123456789") != "" {
+		return 0, false
+	}
 	num, err := strconv.Atoi(s)
 	return num, err == nil
 }
